@@ -157,6 +157,7 @@ type replica struct {
 	ctr    orda.Counter
 	mp     orda.Map
 	li     orda.List
+	doc    orda.Document
 	cursor int    // log position
 	cseq   uint64 // acknowledged own operations
 	// bookkeeping for oracles
